@@ -18,14 +18,18 @@ from coqemit import cZ, cbool, clist, copt, cpair, cstr
 # --------------------------------------------------------------------------------------------------
 # pools
 
-INTS = [0, 1, -1, 7, -13, 255, 2 ** 31, 2 ** 53, 2 ** 70, -(2 ** 70)]
+# 2**53 + 1, -(2**63) - 1 and 10**30 + 7 are NOT exactly representable as floats (a detour through float() rounds them)
+INTS = [0, 1, -1, 7, -13, 255, 2 ** 31, 2 ** 53, 2 ** 70, -(2 ** 70), 2 ** 53 + 1, -(2 ** 63) - 1, 10 ** 30 + 7]
 SMALL_INTS = [0, 1, -1, 7, -13, 255, 8, 16]
 FLOATS = [0.0, 1.5, -2.25, 0.125, 3.0, -1.0, 100.5, 1024.0, 0.0625, 7.75]
 STRS = ["", "a", "hello world", "123", "-7", "1.5", "0.5", "true", "None", "null", " x ", "a/b", "RED", "0", "False",
         "yes", "1_0", "+5", " 12 ", "_type_", "x,y", "it's", 'q"q']
 NONASCII = ["été", "日本", "naïve ☃"]
 PATHS = ["a/b.txt", "/tmp/x", ".", "rel", "/", "../up"]
-ENUMS = {"Color": [("RED", "1"), ("GREEN", "2"), ("BLUE", "3")], "Mode": [("fast", "'f'"), ("slow", "'s'")]}
+ENUMS = {"Color": [("RED", "1"), ("GREEN", "2"), ("BLUE", "3")], "Mode": [("fast", "'f'"), ("slow", "'s'")],
+         "Pri": [("LOW", "1"), ("HIGH", "2")], "Sty": [("plain", "'p'"), ("bold", "'b'")]}
+# Pri members ARE ints, Sty members ARE strs: anything that treats "already a primitive" values specially meets them
+ENUM_BASES = {"Color": "enum.Enum", "Mode": "enum.Enum", "Pri": "enum.IntEnum", "Sty": "str, enum.Enum"}
 LITS = [[["str", "a"], ["str", "b"]], [["int", "1"], ["int", "2"], ["int", "3"]], [["str", "x"], ["int", "5"], ["bool", True]]]
 BOOL_WORDS = {True: ["true", "True", "YES", "1", "t", "y"], False: ["false", "False", "NO", "0", "f", "n"]}
 PLAIN_META = {"incl": True, "enc": None, "dec": None}
@@ -280,7 +284,7 @@ def source_of(t, extra=()):
              "from typing import Dict, List, Literal, Optional, Set, Tuple, Union",
              "from simple_parsing.helpers import FrozenSerializable, Serializable, field", ""]
     for c, ms in sorted(ENUMS.items()):
-        lines.append(f"class {c}(enum.Enum):")
+        lines.append(f"class {c}({ENUM_BASES[c]}):")
         lines += [f"    {m} = {v}" for m, v in ms]
         lines.append("")
     nodes = all_dcs(t, extra)
